@@ -41,7 +41,7 @@ fn civil_from_days(z: i64) -> (i64, i64, i64) {
     (if m <= 2 { y + 1 } else { y }, m, d)
 }
 
-/// Independent RFC 3339 reader: nanoseconds since the epoch, or None.
+/// Independent RFC 3339 reader (also reads the ISO 8601 offsets +hhmm and +hh): nanoseconds since the epoch, or None.
 pub fn rfc3339_ns(s: &str) -> Option<i128> {
     let b = s.as_bytes();
     if b.len() < 20 {
@@ -89,10 +89,17 @@ pub fn rfc3339_ns(s: &str) -> Option<i128> {
             0
         }
         sign @ (b'+' | b'-') => {
-            if i + 6 != b.len() || b[i + 3] != b':' {
+            // RFC 3339 writes +hh:mm; ISO 8601 also allows +hhmm and +hh (round 15): the library
+            // refuses these, but a reader that did take them must take them for the same instant
+            let (oh, om) = if i + 6 == b.len() && b[i + 3] == b':' {
+                (num(i + 1..i + 3)?, num(i + 4..i + 6)?)
+            } else if i + 5 == b.len() {
+                (num(i + 1..i + 3)?, num(i + 3..i + 5)?)
+            } else if i + 3 == b.len() {
+                (num(i + 1..i + 3)?, 0)
+            } else {
                 return None;
-            }
-            let (oh, om) = (num(i + 1..i + 3)?, num(i + 4..i + 6)?);
+            };
             if oh > 23 || om > 59 {
                 return None;
             }
@@ -143,7 +150,11 @@ pub const BASES: [(&str, i64, i64, i64, i64, i64, i64); 8] = [
     ("9999-12-31T23:59:59", 9999, 12, 31, 23, 59, 59),
 ];
 
-pub const OFFSETS: [(&str, i64); 9] = [
+pub const OFFSETS: [(&str, i64); 13] = [
+    ("+0900", 540),
+    ("-0330", -210),
+    ("+09", 540),
+    ("+1400", 840),
     ("Z", 0),
     ("+00:00", 0),
     ("-00:00", 0),
